@@ -13,6 +13,8 @@ VERIF = Path(__file__).resolve().parent.parent
 EVIDENCE = VERIF / "evidence"
 REPLAYS = VERIF / "replays"
 FINDINGS = VERIF / "known_findings.txt"
+FINDINGS_D = VERIF / "known_findings.d"
+REPO = Path(os.environ.get("VERIF_REPO", "/repo"))
 
 
 def load_findings():
@@ -22,8 +24,9 @@ def load_findings():
     Only `known:` lines suppress anything; matching is by exact structural key.
     """
     known = {}
-    if FINDINGS.exists():
-        for line in FINDINGS.read_text().splitlines():
+    files = ([FINDINGS] if FINDINGS.exists() else []) + (sorted(FINDINGS_D.glob("*.txt")) if FINDINGS_D.exists() else [])
+    for f in files:
+        for line in f.read_text().splitlines():
             line = line.strip()
             if not line.startswith("known:"):
                 continue
